@@ -54,11 +54,12 @@ pub fn run(cx: &mut Ctx) {
             let (mut ra, mut rb): (BTreeMap<usize, usize>, BTreeMap<usize, usize>) = (BTreeMap::new(), BTreeMap::new());
             let mut next = 0usize;
             let mut hist: Vec<String> = vec![];
+            let mut dead: Vec<(usize, usize)> = vec![];   // names of removed vertices (vec backend, hash backend)
             for step in 0..60 {
                 let live: Vec<usize> = ra.values().copied().collect();
                 let inv = |m: &BTreeMap<usize, usize>, h: usize| *m.iter().find(|(_, &x)| x == h).unwrap().0;
                 let pick = |rng: &mut Rng| live[rng.n(live.len())];
-                let op = rng.n(14);
+                let op = rng.n(15);
                 let res: Result<(), String> = guard(|| -> Result<(), String> {
                     match op {
                         0 | 1 | 2 => { let ty = [VType::Z, VType::X, VType::B][rng.n(3)]; let ph = Phase::new(Rational64::new(rng.n(8) as i64, 4));
@@ -72,7 +73,7 @@ pub fn run(cx: &mut Ctx) {
                                 else if rng.n(2) == 0 { a.remove_edge(xa, ya); b.remove_edge(xb, yb); hist.push(format!("remove_edge(h{}, h{})", x, y)); }
                                 else { a.set_edge_type(xa, ya, et); b.set_edge_type(xb, yb, et); hist.push(format!("set_edge_type(h{}, h{}, {:?})", x, y, et)); } } }
                         6 if !live.is_empty() => { let x = pick(&mut rng); let (xa, xb) = (inv(&ra, x), inv(&rb, x));
-                            a.remove_vertex(xa); b.remove_vertex(xb); ra.remove(&xa); rb.remove(&xb);
+                            a.remove_vertex(xa); b.remove_vertex(xb); ra.remove(&xa); rb.remove(&xb); dead.push((xa, xb));
                             let ia: Vec<usize> = a.inputs().iter().copied().filter(|&v| v != xa).collect(); let ib: Vec<usize> = b.inputs().iter().copied().filter(|&v| v != xb).collect();
                             let oa: Vec<usize> = a.outputs().iter().copied().filter(|&v| v != xa).collect(); let ob: Vec<usize> = b.outputs().iter().copied().filter(|&v| v != xb).collect();
                             a.set_inputs(ia); b.set_inputs(ib); a.set_outputs(oa); b.set_outputs(ob);
@@ -109,6 +110,20 @@ pub fn run(cx: &mut Ctx) {
                             // names are backend-specific, so a named insertion is mirrored only when the name is free in both
                             if oka && okb { ra.insert(v, next); rb.insert(v, next); next += 1; } else if oka { a.remove_vertex(v); } else if okb { b.remove_vertex(v); }
                             hist.push(format!("add_named_vertex_with_data({})", v)); }
+                        14 => { // "the same success/failure of each operation": name a vertex that was removed (and whose name is not in use again)
+                            let cands: Vec<(usize, usize)> = dead.iter().copied().filter(|&(xa, xb)| !a.contains_vertex(xa) && !b.contains_vertex(xb)).collect();
+                            if !cands.is_empty() { let (xa, xb) = cands[rng.n(cands.len())];
+                                let lv: Option<usize> = if live.is_empty() { None } else { Some(pick(&mut rng)) };
+                                let probes: Vec<(&str, bool, bool)> = vec![
+                                    ("degree", guard(|| a.degree(xa)).is_ok(), guard(|| b.degree(xb)).is_ok()),
+                                    ("neighbors", guard(|| a.neighbors(xa).count()).is_ok(), guard(|| b.neighbors(xb).count()).is_ok()),
+                                    ("vertex_type", guard(|| a.vertex_type(xa)).is_ok(), guard(|| b.vertex_type(xb)).is_ok()),
+                                    ("remove_vertex", guard(|| { let mut c = a.clone(); c.remove_vertex(xa); }).is_ok(), guard(|| { let mut c = b.clone(); c.remove_vertex(xb); }).is_ok()),
+                                    ("add_edge_with_type(live, removed)", match lv { Some(h) => guard(|| { let mut c = a.clone(); c.add_edge_with_type(inv(&ra, h), xa, EType::N); }).is_ok(), None => false },
+                                                                          match lv { Some(h) => guard(|| { let mut c = b.clone(); c.add_edge_with_type(inv(&rb, h), xb, EType::N); }).is_ok(), None => false }),
+                                ];
+                                hist.push(format!("probe removed vertex (vec {}, hash {})", xa, xb));
+                                for (name, oka, okb) in probes { if oka != okb { return Err(format!("{} on a removed vertex: vec backend {}, hash backend {}", name, if oka { "succeeds" } else { "fails" }, if okb { "succeeds" } else { "fails" })); } } } }
                         _ => {}
                     }
                     let (oa, ob) = (observe(&a, &ra)?, observe(&b, &rb)?);
